@@ -1,15 +1,20 @@
 #!/bin/bash
-# Applies every confirmed seeded change to /repo in turn, runs the check of the property it breaks, reverts.
+# Applies every confirmed seeded change to the repository in turn, runs the check of the property it breaks, reverts.
 # Expected: exit 1 (VIOLATION) for every seed; exit 0 would be a miss, exit 2 inconclusive.
-cd /verif || exit 2
-export VERIF_EVIDENCE_DIR=/verif/.work/evidence-trial
-OUT=${1:-/verif/.work/seed_regression.log}; : > $OUT
+# VERIF_HOME / VERIF_REPO: run against a scratch copy of /verif and a scratch worktree of /repo (shards in parallel);
+# usage: seed_regression.sh [logfile] [shard k] [of n]
+V=${VERIF_HOME:-/verif}; R=${VERIF_REPO:-/repo}
+cd $V || exit 2
+export VERIF_EVIDENCE_DIR=$V/.work/evidence-trial
+OUT=${1:-$V/.work/seed_regression.log}; K=${2:-0}; N=${3:-1}; : > $OUT
+i=0
 for d in seeded/*/; do
+  i=$((i+1)); if [ $((i % N)) -ne $K ]; then continue; fi
   s=$(basename $d); p=${s%%-*}
-  if ! git -C /repo diff --quiet; then echo "repo dirty" >> $OUT; exit 2; fi
-  git -C /repo apply /verif/$d/patch.diff || { echo "$s APPLY-FAIL" >> $OUT; continue; }
+  if ! git -C $R diff --quiet; then echo "repo dirty" >> $OUT; exit 2; fi
+  git -C $R apply $V/$d/patch.diff || { echo "$s APPLY-FAIL" >> $OUT; continue; }
   r=$(./check $p 2>&1); rc=$?
-  git -C /repo checkout -- .
+  git -C $R checkout -- .
   first=$(echo "$r" | grep -E "^(VIOLATION|INCONCLUSIVE|OK)" | head -1 | cut -c1-160)
   obl=$(echo "$r" | grep -E "^  obligation:" | head -2 | sed 's/  obligation: //' | tr '\n' ';')
   echo "$s exit=$rc | $first | $obl" >> $OUT
